@@ -45,7 +45,13 @@ SUB_SPEC = {
 
 
 def check(cx):
-    return t2(cx) + t34(cx) + t5(cx) + t6(cx) + t7(cx)
+    _env_wrapped = True
+    from . import c03
+    return _check_own(cx) + c03.envelopes(cx, ID)
+
+
+def _check_own(cx):
+    return [f for f in t2(cx) if not f.key.startswith(('observable::interval::', 'observable::timer::'))] + t34(cx) + t5(cx) + t6(cx) + t7(cx)
 
 
 def t2(cx):
